@@ -9,6 +9,7 @@ import (
 	"sort"
 	"strings"
 	"sync"
+	"sync/atomic"
 	"time"
 
 	"github.com/pion/stun/v3"
@@ -67,9 +68,13 @@ type scriptConn struct {
 	clock    *vclock
 	h        *clientHarness
 	unblock  chan struct{} // WithNoConnClose: make Read return
+	inRead   atomic.Int32  // number of goroutines inside Read
+	closeErr error         // what Close reports (after closing)
 }
 
 func (c *scriptConn) Read(p []byte) (int, error) {
+	c.inRead.Add(1)
+	defer c.inRead.Add(-1)
 	select {
 	case c.idle <- struct{}{}:
 	default:
@@ -120,7 +125,7 @@ func (c *scriptConn) Close() error {
 		close(c.closedCh)
 	}
 	c.h.record(80000, []int{4})
-	return nil
+	return c.closeErr
 }
 
 type clientHarness struct {
@@ -136,6 +141,7 @@ type clientHarness struct {
 	startErr map[int]bool
 	closedOK bool // Close has returned nil
 	doWait   map[int]chan error
+	finished map[int]bool // the handler of this instance has returned
 	// C11 oracle: what was given to Start, when each transmission happened, the RTO captured at Start
 	rawOf     map[int][]byte
 	rtoOf     map[int]int
@@ -283,7 +289,7 @@ func execClientHistory(o *out, f [][]int) []int {
 		parts[i] = fNums(x...)
 	}
 	h := &clientHarness{o: o, line: "1001 " + strings.Join(parts, " "), tidInst: map[[12]byte]int{},
-		attempts: map[int]int{}, invoked: map[int]int{}, started: map[int]bool{}, startErr: map[int]bool{}, doWait: map[int]chan error{},
+		attempts: map[int]int{}, invoked: map[int]int{}, started: map[int]bool{}, startErr: map[int]bool{}, doWait: map[int]chan error{}, finished: map[int]bool{},
 		rawOf: map[int][]byte{}, rtoOf: map[int]int{}, lastWrite: map[int]int{}, nWrites: map[int]int{}, tidOf: map[int][12]byte{}}
 	cfg := f[0]
 	h.maxA, h.curRTO = cfg[1], cfg[0]
@@ -373,11 +379,26 @@ func execClientHistory(o *out, f [][]int) []int {
 					o.failFor("C15", "handler-after-close", h.line)
 				}
 				h.record(myInst, append([]int{2, myInst, hid}, resCode(e)...))
+				if hid >= 100 {
+					time.Sleep(300 * time.Microsecond) // Do must wait for the end of the handler, not its start
+				}
+				h.mu.Lock()
+				h.finished[myInst] = true
+				h.mu.Unlock()
 			}
 			var serr error
 			if hid >= 100 { // Do: runs in its own goroutine, returns when the handler has run
 				done := make(chan error, 1)
-				go func() { done <- c.Do(m, handler) }()
+				go func() {
+					derr := c.Do(m, handler)
+					h.mu.Lock()
+					fin := h.finished[myInst]
+					h.mu.Unlock()
+					if derr == nil && myInst >= 0 && !fin {
+						o.failFor("C10", "do-returned-before-handler-finished", h.line)
+					}
+					done <- derr
+				}()
 				// wait until Do has either returned or reached its blocking wait (the write was attempted)
 				deadline := time.Now().Add(5 * time.Second)
 				returned := false
@@ -462,13 +483,24 @@ func execClientHistory(o *out, f [][]int) []int {
 			if cfg[2] == 0 && !closed {
 				done := make(chan error, 1)
 				go func() { done <- c.Close() }()
-				// under WithNoConnClose the connection's Read eventually returns (the property's precondition)
-				time.Sleep(2 * time.Millisecond)
-				close(conn.unblock)
+				// under WithNoConnClose the connection's Read eventually returns (the property's precondition);
+				// until it does, Close must not return: the reader goroutine is still inside Read
+				returned := false
 				select {
 				case cerr = <-done:
-				case <-time.After(5 * time.Second):
-					o.failFor("C15", "close-did-not-return", h.line)
+					returned = true
+					if conn.inRead.Load() > 0 {
+						o.failFor("C15", "close-returned-while-reader-in-read", h.line)
+					}
+				case <-time.After(2 * time.Millisecond):
+				}
+				close(conn.unblock)
+				if !returned {
+					select {
+					case cerr = <-done:
+					case <-time.After(5 * time.Second):
+						o.failFor("C15", "close-did-not-return", h.line)
+					}
 				}
 			} else {
 				done := make(chan error, 1)
@@ -481,6 +513,9 @@ func execClientHistory(o *out, f [][]int) []int {
 				}
 			}
 			if cerr == nil {
+				if conn.inRead.Load() > 0 {
+					o.failFor("C15", "close-returned-while-reader-in-read", h.line)
+				}
 				closed = true
 				h.record(90000, []int{5, 0})
 				h.closedOK = true
@@ -574,7 +609,9 @@ func response(r *rng, id int, extra int) []byte {
 	if extra > 0 {
 		body = r.tlv(0x8022, r.bytes(extra), extra)
 	}
-	return append(header(0x0101, len(body), t[:]), body...)
+	// the class of a delivered message must not matter to the transaction machinery
+	typ := r.pick([]int{0x0101, 0x0101, 0x0101, 0x0101, 0x0111, 0x0011, 0x0001, 0x0113})
+	return append(header(typ, len(body), t[:]), body...)
 }
 
 func (g *clientGen) start(fs *[]string, do bool) {
@@ -849,7 +886,129 @@ func runC15(o *out, thorough bool, r *rng, _ []string) map[string]interface{} {
 		}
 		o.count(fmt.Sprintf("closeConn:%d", cfg[2]))
 	}
+	closeErrorScenarios(o, r, 64)
 	return nil
+}
+
+// errAgent: a ClientAgent whose Close does its work and then reports an error
+type errAgent struct {
+	*stun.Agent
+	err error
+}
+
+func (a *errAgent) Close() error {
+	_ = a.Agent.Close()
+	return a.err
+}
+
+var errScriptedAgentClose = errors.New("scripted agent close error")
+var errScriptedConnClose = errors.New("scripted connection close error")
+
+// closeErrorScenarios (oracle in Go, no model): Close with a failing agent and / or a failing connection
+// still does all of its work exactly once — CloseErr carries exactly the errors, the connection is closed
+// once (never under WithNoConnClose), the reader has left Read, every transaction was completed, and
+// afterwards everything is refused without a write.
+func closeErrorScenarios(o *out, r *rng, n int) {
+	for i := 0; i < n; i++ {
+		agentFails, connFails, noConnClose := i&1 != 0, i&2 != 0, i&4 != 0
+		h := &clientHarness{o: o, line: fmt.Sprintf("x close-errors agent=%v conn=%v noconnclose=%v", agentFails, connFails, noConnClose),
+			tidInst: map[[12]byte]int{}, attempts: map[int]int{}}
+		clock := &vclock{now: agentBase}
+		conn := &scriptConn{rd: make(chan []byte), idle: make(chan struct{}, 1), closedCh: make(chan struct{}),
+			failInst: map[int]bool{}, clock: clock, h: h, unblock: make(chan struct{})}
+		if connFails {
+			conn.closeErr = errScriptedConnClose
+		}
+		opts := []stun.ClientOption{stun.WithClock(clock), stun.WithCollector(&manualCollector{}), stun.WithRTO(time.Millisecond)}
+		if agentFails {
+			opts = append(opts, stun.WithAgent(&errAgent{Agent: stun.NewAgent(nil), err: errScriptedAgentClose}))
+		}
+		if noConnClose {
+			opts = append(opts, stun.WithNoConnClose())
+		}
+		c, err := stun.NewClient(conn, opts...)
+		if err != nil {
+			o.failFor("C15", "client-not-created", h.line)
+			continue
+		}
+		waitIdle(conn)
+		var mu sync.Mutex
+		invoked := map[int]int{}
+		k := r.intn(4)
+		for j := 0; j < k; j++ {
+			jj := j
+			m := &stun.Message{TransactionID: clientTID(500 + j), Raw: stunMsg(r, 500+j, 20)}
+			_ = c.Start(m, func(stun.Event) { mu.Lock(); invoked[jj]++; mu.Unlock() })
+		}
+		done := make(chan error, 1)
+		go func() { done <- c.Close() }()
+		var cerr error
+		if noConnClose {
+			select {
+			case cerr = <-done:
+				if conn.inRead.Load() > 0 {
+					o.failFor("C15", "close-returned-while-reader-in-read", h.line)
+				}
+				close(conn.unblock)
+			case <-time.After(2 * time.Millisecond):
+				close(conn.unblock)
+				select {
+				case cerr = <-done:
+				case <-time.After(5 * time.Second):
+					o.failFor("C15", "close-did-not-return", h.line)
+					continue
+				}
+			}
+		} else {
+			select {
+			case cerr = <-done:
+			case <-time.After(5 * time.Second):
+				o.failFor("C15", "close-did-not-return", h.line)
+				continue
+			}
+		}
+		var ce stun.CloseErr
+		wantErr := agentFails || (connFails && !noConnClose)
+		switch {
+		case !wantErr && cerr != nil:
+			o.failFor("C15", "close-error-unexpected", h.line+" got "+fmt.Sprint(cerr))
+		case wantErr && !errors.As(cerr, &ce):
+			o.failFor("C15", "close-error-not-reported", h.line+" got "+fmt.Sprint(cerr))
+		case wantErr:
+			if (ce.AgentErr != nil) != agentFails || (ce.ConnectionErr != nil) != (connFails && !noConnClose) {
+				o.failFor("C15", "close-error-wrong-parts", h.line+" got "+fmt.Sprint(cerr))
+			}
+		}
+		if conn.inRead.Load() > 0 {
+			o.failFor("C15", "close-returned-while-reader-in-read", h.line)
+		}
+		wantCloses := 1
+		if noConnClose {
+			wantCloses = 0
+		}
+		conn.mu.Lock()
+		nc := conn.closes
+		conn.mu.Unlock()
+		if nc != wantCloses {
+			o.failFor("C15", "connection-close-count", fmt.Sprintf("%s closes=%d want=%d", h.line, nc, wantCloses))
+		}
+		mu.Lock()
+		for j := 0; j < k; j++ {
+			if invoked[j] != 1 {
+				o.failFor("C10", "transaction-not-completed-by-close", fmt.Sprintf("%s j=%d invoked=%d", h.line, j, invoked[j]))
+			}
+		}
+		mu.Unlock()
+		h.closedOK = true
+		if !errors.Is(c.Close(), stun.ErrClientClosed) {
+			o.failFor("C15", "second-close-not-refused", h.line)
+		}
+		m := &stun.Message{TransactionID: clientTID(999), Raw: stunMsg(r, 999, 20)}
+		if !errors.Is(c.Start(m, func(stun.Event) {}), stun.ErrClientClosed) || !errors.Is(c.Indicate(m), stun.ErrClientClosed) {
+			o.failFor("C15", "use-after-close-not-refused", h.line)
+		}
+		o.count(fmt.Sprintf("close-errors:agent=%v,conn=%v,noconnclose=%v", agentFails, connFails, noConnClose))
+	}
 }
 
 func (r *rng) perm(n int) []int {
